@@ -13,12 +13,19 @@ Engine E2 (mc.inputs): bounded exhaustive enumeration of inputs x configurations
                          TextIOWrapper(BytesIO)) x preseek True / False-with-cursor-at-end.
                          Oracle (DESIGN 5.1): no element contains a line break and '\\n'.join(reversed(L)) == content
                          with \\r\\n -> \\n, i.e. L == content.split('\\n')[::-1]; identical for every blocksize.
+  part reverse_iter_lines-multibyte  "content with multi-byte characters": for every UTF-8 lead byte (0xC2..0xF4) the
+                         lowest and the highest code point encoded with it (so every lead byte and the extreme
+                         continuation bytes 0x80 / 0xBF occur) x 8 content templates that put the character at the
+                         start / end of the file and of a line x every blocksize x file kind x preseek; same oracle.
   part jsonl             every file of <= K lines over a 7-line menu (objects, blank lines, a corrupt line, a
                          5000-byte object) x trailing newline x eol x {text file, binary file, BytesIO} x
                          ignore_errors x {forward, reverse with the native 4096-byte block, reverse with the block
                          scaled to 3 / to the file size +-1 through a wrapper around jsonutils.reverse_iter_lines}.
                          Oracle: json.loads of the non-blank lines (corrupt ones skipped iff ignore_errors, else
                          ValueError at that position); reverse == the same read last line first.
+  part jsonl-long-gaps   "whatever the file size": directed (NOT exhaustive in the size) files  gap obj gap obj gap  whose
+                         gaps are runs of n blank / whitespace-only / corrupt / undecodable / mixed lines, n around
+                         powers of two and around the interpreter's recursion limit; same oracle as part jsonl.
 
 Real files live in a scratch directory under /dev/shm which is removed at the end of the run.
 """
@@ -381,6 +388,47 @@ def rev_shards(scratch, maxtok, modes):
 
 
 # ---------------------------------------------------------------------------------------------------------------
+# part 2b: the multi-byte characters.  One representative pair per UTF-8 lead byte, found with the stdlib decoder.
+
+MB_TEMPLATES = ('X', 'X\n', '\nX', 'X\na', 'a\nX', 'Xa\naX', 'X\r\nX', 'XX\nX\n')
+
+
+def _lead_extremes(lead):
+    """Lowest and highest code point whose UTF-8 encoding starts with the byte `lead` (strict stdlib decoder: no
+    overlong forms, no surrogates, nothing beyond U+10FFFF)."""
+    ncont = 1 if lead < 0xE0 else (2 if lead < 0xF0 else 3)
+    out = []
+    for firsts, fill in ((range(0x80, 0xC0), 0x80), (range(0xBF, 0x7F, -1), 0xBF)):
+        for c1 in firsts:
+            try:
+                ch = bytes([lead, c1] + [fill] * (ncont - 1)).decode('utf-8')
+            except UnicodeDecodeError:
+                continue
+            if ch not in out:
+                out.append(ch)
+            break
+    return out
+
+
+MB_LEADS = tuple(range(0xC2, 0xF5))
+
+
+def mb_shard(arg):
+    from boltons import jsonutils
+    scratch, lead, modes = arg
+    t = inputs.Tally()
+    path = os.path.join(scratch, 'mb-%d.dat' % os.getpid())
+    for ch in _lead_extremes(lead):
+        for tpl in MB_TEMPLATES:
+            if saw_hang():
+                t.add('cut_short_after_hang')
+                return t
+            check_rev_content(jsonutils, tpl.replace('X', ch), path, modes, t)
+    t.add('characters', len(_lead_extremes(lead)))
+    return t
+
+
+# ---------------------------------------------------------------------------------------------------------------
 # part 3: JSONLIterator
 
 LONG_NAME = '<5000-byte object>'
@@ -560,6 +608,103 @@ def jsonl_shards(scratch, maxlines, eols, kinds, quick):
 
 
 # ---------------------------------------------------------------------------------------------------------------
+## part 3b: long runs of skipped lines ("whatever the file size").  Directed: the sizes are a sample of the class.
+
+GAP_KINDS = (            # name, the lines repeated to fill a gap, needs ignore_errors, binary sources only
+    ('blank', ('',), False, False),
+    ('whitespace', ('   ',), False, False),
+    ('corrupt', ('{corrupt',), True, False),
+    ('mixed', ('', '{corrupt', '   '), True, False),
+    ('undecodable', (BADUTF,), True, True),
+)
+GAP_OBJECTS = ('{"1": 1}', '[1, "\u00e9"]')
+
+
+def gap_sizes(quick=True):
+    """Run lengths around powers of two and around the interpreter's recursion limit (read here, in the process that
+    makes the calls), smallest first."""
+    import sys
+    r = sys.getrecursionlimit()
+    sizes = {2 ** k + d for k in (8, 10) for d in (-1, 0, 1)} | {r - 1, r, r + 1, 2 * r + 1, 2 ** 12 + 1}
+    if not quick:
+        sizes |= {2 ** k + d for k in (12, 14) for d in (-1, 0, 1)} | {10 * r + 1}
+    return sorted(sizes)
+
+
+def gap_lines(kindname, n):
+    unit = dict((k[0], k[1]) for k in GAP_KINDS)[kindname]
+    gap = tuple(unit[i % len(unit)] for i in range(n))
+    return gap + (GAP_OBJECTS[0],) + gap + (GAP_OBJECTS[1],) + gap
+
+
+def gap_blocksizes(nbytes):
+    return [None, nbytes - 1]          # native 4096 (much smaller than the file) and one block for (almost) the whole file
+
+
+def gap_what(obs):
+    return 'objects' if obs[0] == 'ok' else ('no termination' if obs[0] == 'hang' else 'raised ' + obs[1])
+
+
+def run_gap_case(jsonutils, case, lines, data, path):
+    """One recorded configuration on the file already written to path -> (sig or None, expected, observed)."""
+    exp = jsonl_expected(lines, case['ignore_errors'], case['reverse'])
+    obs = run_jsonl(jsonutils, case['kind'], data, path, case['ignore_errors'], case['reverse'], case['blocksize'])
+    if obs == ('ok', exp):
+        return None, exp, obs
+    return ('C19|cls:JSONLIterator|%s|%s' % ('reverse' if case['reverse'] else 'forward', gap_what(obs)), exp, obs)
+
+
+def write_gap_file(kindname, n, path):
+    lines = gap_lines(kindname, n)
+    data = jsonl_content(lines, '\n', True).encode('utf-8', 'surrogateescape')
+    with open(path, 'wb') as f:
+        f.write(data)
+    return lines, data
+
+
+def check_gap_file(jsonutils, kindname, n, path, t):
+    kind_row = [k for k in GAP_KINDS if k[0] == kindname][0]
+    lines, data = write_gap_file(kindname, n, path)
+    for kind in JSONL_KINDS:
+        if kind == 'file-text' and kind_row[3]:
+            continue        # a text-mode file fails in its own decoder, before JSONLIterator sees the line
+        for ignore_errors in ((True,) if kind_row[2] else (False, True)):
+            for reverse, bs in [(False, None)] + [(True, b) for b in gap_blocksizes(len(data))]:
+                case = {'part': 'jsonl-long-gaps', 'gap': kindname, 'n': n, 'kind': kind,
+                        'ignore_errors': ignore_errors, 'reverse': reverse, 'blocksize': bs}
+                t.count(nontrivial=True, sample=case if reverse else None)
+                sig, exp, obs = run_gap_case(jsonutils, case, lines, data, path)
+                if sig is None:
+                    continue
+                t.bad(sig, case, jsonl_short(exp), jsonl_short(list(obs)),
+                      tags=[kind, 'ignore_errors' if ignore_errors else 'strict', 'long_run_of_skipped_lines'])
+                if obs[0] == 'hang':
+                    saw_hang(t)
+                    return
+
+
+def gap_shard(arg):
+    from boltons import jsonutils
+    scratch, kindname, which, quick = arg
+    t = inputs.Tally()
+    path = os.path.join(scratch, 'gap-%d.dat' % os.getpid())
+    sizes = gap_sizes(quick)
+    for n in sizes[which::GAP_SPLIT]:
+        if saw_hang():
+            t.add('cut_short_after_hang')
+            break
+        check_gap_file(jsonutils, kindname, n, path, t)
+    return t
+
+
+GAP_SPLIT = 3
+
+
+def gap_shards(scratch, quick):
+    return [(scratch, k[0], which, quick) for which in range(GAP_SPLIT) for k in GAP_KINDS]
+
+
+# ---------------------------------------------------------------------------------------------------------------
 
 def bounds(ctx):
     q = ctx.quick()
@@ -585,12 +730,22 @@ def run(ctx):
         t2 = inputs.run_shards(
             ctx, rev_shard, rev_shards(scratch, b['rev_maxtok'], REV_MODES), part='reverse_iter_lines',
             rule='content contains at least one \\n or \\r\\n (case = content x blocksize x file kind x preseek)')
+        HANG_FLAG = os.path.join(scratch, 'HANG-2b')
+        t2b = inputs.run_shards(
+            ctx, mb_shard, [(scratch, lead, REV_MODES) for lead in MB_LEADS], part='reverse_iter_lines-multibyte',
+            rule='content contains at least one \\n or \\r\\n; every content holds a multi-byte character')
         HANG_FLAG = os.path.join(scratch, 'HANG-3')
         t3 = inputs.run_shards(
             ctx, jsonl_shard, jsonl_shards(scratch, b['jsonl_maxlines'], b['jsonl_eols'], JSONL_KINDS, ctx.quick()),
             part='jsonl',
             rule='file has >= 2 lines and at least one blank or corrupt line '
                  '(case = file x file kind x ignore_errors x direction x block size)')
+        HANG_FLAG = os.path.join(scratch, 'HANG-3b')
+        t3b = inputs.run_shards(
+            ctx, gap_shard, gap_shards(scratch, ctx.quick()), part='jsonl-long-gaps',
+            rule='every file has two objects separated and surrounded by runs of >= 255 skipped lines')
+        ctx.coverage['parts']['jsonl-long-gaps']['directed'] = ('the run lengths are a sample (around powers of two '
+                                                                'and the recursion limit), not every file size')
         left = sorted(os.listdir(scratch))
     finally:
         HANG_FLAG = None
@@ -601,7 +756,7 @@ def run(ctx):
     ctx.coverage['rule'] = ('non-trivial = the input contains a line break (iter_splitlines, reverse_iter_lines) / '
                             'the JSONL file has >= 2 lines with a blank or corrupt one; every counted case is a '
                             'distinct (input, configuration) tuple by construction')
-    cut = sum(t.extra.get('cut_short_after_hang', 0) + t.extra.get('hangs', 0) for t in (t1, t2, t3))
+    cut = sum(t.extra.get('cut_short_after_hang', 0) + t.extra.get('hangs', 0) for t in (t1, t2, t2b, t3, t3b))
     ctx.coverage['exhaustive'] = not cut
     if cut:
         ctx.note('a call into the code under test did not terminate within %d CPU-seconds: the remaining shards were '
@@ -617,6 +772,15 @@ def run(ctx):
                   'trailing_eol': [False, True], 'kinds': list(JSONL_KINDS), 'ignore_errors': [False, True],
                   'directions': 'forward; reverse with block 4096 (native), 3, len(file)-1, len(file), len(file)+1'
                                 + ('' if ctx.quick() else ', 1 (files without the 5000-byte line)')},
+        'reverse_iter_lines-multibyte': {
+            'characters': 'lowest and highest code point of every UTF-8 lead byte 0xC2..0xF4 (%d characters)'
+                          % sum(len(_lead_extremes(b)) for b in MB_LEADS),
+            'templates (X = the character)': list(MB_TEMPLATES),
+            'blocksizes, modes, preseek': 'as for reverse_iter_lines'},
+        'jsonl-long-gaps': {'layout': 'gap obj gap obj gap, eol \\n, trailing eol', 'gap_kinds': [k[0] for k in GAP_KINDS],
+                            'run_lengths': gap_sizes(ctx.quick()), 'kinds': list(JSONL_KINDS),
+                            'directions': 'forward; reverse with block 4096 (native) and len(file)-1',
+                            'exhaustive_in_size': False},
     }
     ctx.coverage['scratch_left_behind'] = [f for f in left if not f.endswith('.dat') and not f.startswith('HANG')]
     ctx.assumptions += [
@@ -626,6 +790,7 @@ def run(ctx):
         'an empty file may yield no line or one empty line (the statement does not say); both are accepted',
         'preseek=False is explored only with the cursor at the end of the file; rel_seek is not explored',
         'without ignore_errors the iterator is driven up to the first ValueError only (resuming is not promised)',
+        'long runs of skipped lines are explored for a sample of run lengths only (directed scenario)',
         'str.splitlines also breaks at \\x1c-\\x1e, which the statement does not list: those are not in the alphabet',
     ]
 
@@ -688,6 +853,19 @@ def replay(ctx, data):
                             % ('reverse' if case['reverse'] else 'forward', list(lines), case['eol'],
                                case['trailing'], case['kind'], case['ignore_errors'], case['blocksize'],
                                jsonl_short(exp), jsonl_short(list(obs))))
+        finally:
+            shutil.rmtree(scratch, ignore_errors=True)
+    elif part == 'jsonl-long-gaps':
+        scratch = core.scratch_dir('c19-replay')
+        try:
+            path = os.path.join(scratch, 'gap.dat')
+            lines, databytes = write_gap_file(case['gap'], case['n'], path)
+            sig, exp, obs = run_gap_case(jsonutils, case, lines, databytes, path)
+            if sig:
+                msgs.append('%s gap=%s n=%d (layout: gap obj gap obj gap) kind=%s ignore_errors=%r blocksize=%r '
+                            'expected=%r observed=%r' % (sig, case['gap'], case['n'], case['kind'],
+                                                         case['ignore_errors'], case['blocksize'],
+                                                         jsonl_short(exp), jsonl_short(list(obs))))
         finally:
             shutil.rmtree(scratch, ignore_errors=True)
     else:
